@@ -48,6 +48,10 @@
 
 # define sposSet(l, c) (((l) << SPOS_LNO_SHIFT) | ((c) << SPOS_CNO_SHIFT))
 
+/* Largest column that fits its field; larger columns saturate instead of
+ * carrying into the line number. */
+# define SPOS_CNO_MAX	((1L << SPOS_CNO_NBITS) - 1)
+
 SrcPos sposNone = sposSet(int0, int0);
 
 #define		TOP_LINE_NO	long0
@@ -81,7 +85,11 @@ static Length	lastlno, lastftell;
 SrcPos
 sposOffset(SrcPos p, int c)
 {
-    return (((p >> SPOS_CNO_SHIFT)+c) << SPOS_CNO_SHIFT) | (p & SPOS_MAC_MASK);
+    long cno = (long) ((p & SPOS_CNO_MASK) >> SPOS_CNO_SHIFT) + c;
+
+    if (cno < 0) cno = 0;
+    if (cno > SPOS_CNO_MAX) cno = SPOS_CNO_MAX;
+    return (p & ~(SrcPos) SPOS_CNO_MASK) | ((SrcPos) cno << SPOS_CNO_SHIFT);
 }
 
 Bool
@@ -310,6 +318,7 @@ sposNew(FileName fname, Length flno, Length glno, Length cno)
 	  
 	  sposGrowGloLineTbl(fname, flno, glno);
 	
+	if (cno > SPOS_CNO_MAX) cno = SPOS_CNO_MAX;
 
 	return sposSet(glno, cno);
 }
@@ -332,6 +341,8 @@ sposGrowGloLineTbl(FileName fname, Length flno, Length glno)
 SrcPos
 sposGet(Length glno, Length cno)
 {
+	if (cno > SPOS_CNO_MAX) cno = SPOS_CNO_MAX;
+
 	return sposSet(glno, cno);
 }
 
